@@ -14,7 +14,7 @@ RULE = ("Hypothesis over the 'conventional' profile of DESIGN section 8 (1..2 re
         "YAML with each subset of the three mixin APIs with whole-API rule sets, add-iam-methods, retry config). Oracle: `pytest "
         "tests/unit` on the emitted tree in a fresh process exits 0 and its junit report has >= 1 test, zero failures, zero errors. "
         "Non-trivial: >= 3 of {get, list, create, update, delete, custom} on a resource; distinct = (option set, shape classes).")
-ASSUMPTIONS = ["conventional profile and exclusions E0/E1: DESIGN.md section 8", "ads templates are not part of the generated option sets; async REST only together with gRPC (alone: finding F-async-rest-without-grpc)"]
+ASSUMPTIONS = ["conventional profile and exclusions E0/E1: DESIGN.md section 8", "async REST only together with gRPC (alone: finding F-async-rest-without-grpc); ads templates with transport=grpc and old-naming"]
 TESTS_TIMEOUT = 900
 
 
@@ -38,6 +38,14 @@ def _case(draw):
     if mix:
         opts["service_yaml"] = {"type": "google.api.Service", "config_version": 3, "name": "lib.acme.com",
                                 "apis": [{"name": a} for a in mix], "http": {"rules": [r for a in mix for r in CV.MIXIN_RULES[a]]}}
+    if t == "grpc" and draw(st.integers(0, 2)) == 0:
+        # the alternative (ads) template set with its legacy naming
+        params += ["python-gapic-templates=ads-templates", "old-naming"]
+        opts["old_naming"] = True
+        opts["ads"] = True
+        if "rest-numeric-enums" in params:
+            params.remove("rest-numeric-enums")
+            opts.pop("numeric_enums", None)
     if t == "grpc+rest" and draw(st.integers(0, 3)) == 0:
         # experimental asynchronous REST transport (with gRPC present; alone it is finding F-async-rest-without-grpc)
         y = opts.setdefault("service_yaml", {"type": "google.api.Service", "config_version": 3, "name": "lib.acme.com"})
@@ -57,7 +65,7 @@ def run_case(case, rec):
     api, options = case["api"], case["options"]
     kinds = sorted({re.match(r"[A-Z][a-z]+", m["name"]).group(0) for f in api["files"] for s in f["services"] for m in s["methods"]})
     classes = G.shape_classes(api)
-    rec.cls("transport:" + options["transport"] + ("+async-rest" if options.get("async_rest") else ""))
+    rec.cls("transport:" + options["transport"] + ("+async-rest" if options.get("async_rest") else "") + ("+ads" if options.get("ads") else ""))
     for a in case["mixins"]:
         rec.cls("mixin:" + a.rsplit(".", 1)[-1])
     with common.scratch("c13") as d:
